@@ -488,6 +488,8 @@ func (e *engine) Execute(raw json.RawMessage) (vd harness.Verdict) {
 	vd.SimTime = out.res.SimDur
 	vd.Faults["context_switches"] = s.Stats.Switches
 	vd.Faults["clock_jumps"] = s.Stats.TimeJumps
+	vd.Probes["scenario_"+c.Scen]++
+	vd.Probes["forced_switches"] = s.Stats.ForcedSwitches
 	vd.Probes["lock_contended"] = s.Stats.LockContended
 	vd.Probes["select_multi_ready"] = s.Stats.SelectMulti
 	vd.Probes["timer_fires"] = s.Stats.TimerFires
